@@ -97,6 +97,17 @@ func (g *c07Gen) walk(src *mgen.Type, vecN int, vecSc bool, constOnly bool, maxL
 			if n > 0 && !sc && rng.Intn(3) == 0 {
 				var es []string
 				form := "struct-splat-vector"
+				if rng.Intn(5) == 0 {
+					// every element the same literal beyond 32 bits (LLVM reads each modulo 2^32)
+					lit := new(big.Int).Add(big.NewInt(int64(structIdx)), new(big.Int).Lsh(big.NewInt(int64(1+rng.Intn(3))), uint([]int{32, 33, 63, 64}[rng.Intn(4)])))
+					for i := 0; i < n; i++ {
+						es = append(es, "i32 "+lit.String())
+					}
+					idx = append(idx, fmt.Sprintf("<%d x i32> <%s>", n, strings.Join(es, ", ")))
+					forms = append(forms, "struct-splat-vector-equal-literals-beyond-32-bits")
+					cur = r.Fields[structIdx]
+					continue
+				}
 				for i := 0; i < n; i++ {
 					if structIdx == 0 && rng.Intn(2) == 0 {
 						// the element 0 spelled `i32 zeroinitializer`
